@@ -164,16 +164,17 @@ void AutomationMgr::setSlotSub(int slot_id, int par, float value)
 
     char msg[256] = {0};
     if(type == 'i' || type == 'c') {
-        float v = value*(b-a) + a;
-        if(v > mx)
-            v = mx;
-        else if(v < mn)
-            v = mn;
+        //clamp against the exact bounds: a float cannot hold every int
+        double v = value*(b-a) + a;
+        if(v > au.param_max)
+            v = au.param_max;
+        else if(v < au.param_min)
+            v = au.param_min;
 
         if(au.map.control_scale == 1)
-            v = expf(v);
+            v = exp(v);
 
-        rtosc_message(msg, 256, path, type == 'i' ? "i" : "c", (int)roundf(v));
+        rtosc_message(msg, 256, path, type == 'i' ? "i" : "c", (int)round(v));
     } else if(type == 'f') {
         float v = value*(b-a) + a;
         if(v > mx)
